@@ -73,7 +73,56 @@ def class_passes_the_metaclass_twice():
     return {"reproduced": verdicts != expected, "verdicts": verdicts, "expected": expected}
 
 
-PROBES = {"kf_C17_alias": alias_of_another_class, "twice_through_the_metaclass": class_passes_the_metaclass_twice}
+def wrapper_that_passes_no_attributes_on():
+    """A foreign decorator between contract decorators that sets __wrapped__ and the name but does not copy the
+    attributes of the function beneath it (functools.wraps(f, updated=())): the stack still has one checker, a snapshot
+    above it is accepted (there is a postcondition below), and all contracts are enforced."""
+    import functools
+
+    def quiet(f):
+        @functools.wraps(f, updated=())
+        def wrapper(*args, **kwargs):
+            return f(*args, **kwargs)
+        return wrapper
+    log = []
+    result = {}
+    try:
+        @icontract.snapshot(lambda xs: len(xs), name="n")
+        @icontract.require(lambda xs: log.append("outer pre") or True)
+        @quiet
+        @icontract.ensure(lambda OLD, xs: log.append("post") or len(xs) == OLD.n + 1)
+        @icontract.require(lambda xs: log.append("inner pre") or len(xs) < 3)
+        def push(xs):
+            xs.append(0)
+            return xs
+    except BaseException as err:  # noqa: BLE001
+        return {"reproduced": True, "decoration": "%s: %s" % (type(err).__name__, str(err)[:120])}
+    checkers, cur = 0, push
+    while True:
+        code = getattr(cur, "__code__", None)
+        if code is not None and getattr(code, "co_qualname", "").startswith("decorate_with_checker"):
+            checkers += 1
+        if not hasattr(cur, "__wrapped__"):
+            break
+        cur = cur.__wrapped__
+    result["checkers"] = checkers
+    try:
+        push([1])
+        result["good call"] = "accepted"
+    except BaseException as err:  # noqa: BLE001
+        result["good call"] = type(err).__name__
+    result["evaluated"] = sorted(set(log))
+    try:
+        push([1, 2, 3])
+        result["bad call"] = "accepted"
+    except icontract.ViolationError:
+        result["bad call"] = "rejected"
+    expected = {"checkers": 1, "good call": "accepted", "evaluated": ["inner pre", "outer pre", "post"], "bad call": "rejected"}
+    return {"reproduced": result != expected, "result": result, "expected": expected}
+
+
+PROBES = {"kf_C17_alias": alias_of_another_class, "twice_through_the_metaclass": class_passes_the_metaclass_twice,
+          "wrapper_that_passes_no_attributes_on": wrapper_that_passes_no_attributes_on}
 
 
 def main():
